@@ -693,3 +693,130 @@ Qed.
 Theorem unchecked_dict_refuted :
   exists script d, flatten_dict_mut false script d = Err Crash.
 Proof. exists [MDelLast], [(1, 10); (2, 20)]%Z. reflexivity. Qed.
+
+(* ---------- unflatten while user code mutates the list of leaves ---------- *)
+Theorem unfl_loop_checked : forall r i script cur s l e,
+  unfl_loop r i script cur s l = Err e -> e = ValueError.
+Proof.
+  induction r as [|r IH]; intros i script cur s l e H; simpl in H.
+  - destruct cur; [injection H as <-; reflexivity | discriminate].
+  - destruct cur as [x|]; [|injection H as <-; reflexivity].
+    destruct (lit_next s l) as [nx s'].
+    destruct (unfl_loop r (S i) script nx s' (mut_list (nth i script MNone) l)) as [rest|e1] eqn:E; simpl in H;
+      [discriminate|]. injection H as <-. eapply IH; eauto.
+Qed.
+
+Theorem unfl_loop_consistent : forall r i script cur s l vs,
+  unfl_loop r i script cur s l = Ok vs -> length vs = r.
+Proof.
+  induction r as [|r IH]; intros i script cur s l vs H; simpl in H.
+  - destruct cur; [discriminate|]. injection H as <-. reflexivity.
+  - destruct cur as [x|]; [|discriminate].
+    destruct (lit_next s l) as [nx s'].
+    destruct (unfl_loop r (S i) script nx s' (mut_list (nth i script MNone) l)) as [rest|e1] eqn:E; simpl in H;
+      [|discriminate]. injection H as <-. simpl. f_equal. eapply IH; eauto.
+Qed.
+
+Theorem unflatten_leaves_mut_safe script n l :
+  (exists vs, unflatten_leaves_mut true script n l = Ok vs /\ length vs = n) \/
+  unflatten_leaves_mut true script n l = Err ValueError.
+Proof.
+  unfold unflatten_leaves_mut. destruct (lit_next _ l) as [c0 s0].
+  destruct (unfl_loop n 0 script c0 s0 l) as [vs|e] eqn:E.
+  - left. exists vs. split; [reflexivity | eapply unfl_loop_consistent; eauto].
+  - right. f_equal. eapply unfl_loop_checked; eauto.
+Qed.
+
+(* every value handed to the rebuilt tree was an element of the list when it was fetched: an original
+   leaf or a value the script appended — never anything else *)
+Definition appended (script : list mut) : list Z :=
+  flat_map (fun m => match m with MAppend x => [x] | _ => [] end) script.
+
+Lemma mut_list_incl m l pool : incl l pool -> (forall x, m = MAppend x -> In x pool) -> incl (mut_list m l) pool.
+Proof.
+  intros Hl Hm. destruct m; simpl.
+  - exact Hl.
+  - intros y Hy. apply Hl. destruct l; [destruct Hy | right; exact Hy].
+  - intros y Hy. apply Hl. revert Hy. clear. induction l as [|a l IH]; simpl; [tauto|].
+    destruct l; [simpl; tauto|]. intros [->|H]; [left; reflexivity | right; apply IH; exact H].
+  - intros y [].
+  - intros y Hy. apply in_app_or in Hy as [Hy|[<-|[]]]; [apply Hl; exact Hy | apply Hm; reflexivity].
+Qed.
+
+Lemma nth_script_appended i script x : nth i script MNone = MAppend x -> In x (appended script).
+Proof.
+  revert i. induction script as [|m script IH]; intros [|i] H; simpl in *; try discriminate.
+  - subst m. left. reflexivity.
+  - apply in_or_app. right. eapply IH; eauto.
+Qed.
+
+Lemma lit_next_in s l x s' : lit_next s l = (Some x, s') -> In x l.
+Proof.
+  unfold lit_next. destruct (li_done s); [discriminate|].
+  destruct (nth_error l (li_idx s)) as [y|] eqn:E; [|discriminate].
+  intros H. injection H as <- _. eapply nth_error_In; eauto.
+Qed.
+
+Theorem unfl_loop_provenance pool : forall r i script cur s l vs,
+  incl l pool -> incl (appended script) pool -> (forall x, cur = Some x -> In x pool) ->
+  unfl_loop r i script cur s l = Ok vs -> incl vs pool.
+Proof.
+  induction r as [|r IH]; intros i script cur s l vs Hl Hs Hc H; simpl in H.
+  - destruct cur; [discriminate|]. injection H as <-. intros y [].
+  - destruct cur as [x|]; [|discriminate].
+    destruct (lit_next s l) as [nx s'] eqn:En.
+    destruct (unfl_loop r (S i) script nx s' (mut_list (nth i script MNone) l)) as [rest|e1] eqn:E; simpl in H;
+      [|discriminate]. injection H as <-.
+    intros y [<-|Hy]; [apply Hc; reflexivity|].
+    refine (IH (S i) script nx s' _ rest _ Hs _ E y Hy).
+    + apply mut_list_incl; [exact Hl|]. intros z Hz. apply Hs. eapply nth_script_appended; eauto.
+    + intros z ->. apply Hl. eapply lit_next_in; eauto.
+Qed.
+
+Theorem unflatten_leaves_mut_provenance script n l vs :
+  unflatten_leaves_mut true script n l = Ok vs -> incl vs (l ++ appended script).
+Proof.
+  unfold unflatten_leaves_mut. destruct (lit_next _ l) as [c0 s0] eqn:E0. intros H.
+  eapply unfl_loop_provenance; [| | |exact H].
+  - apply incl_appl, incl_refl.
+  - apply incl_appr, incl_refl.
+  - intros x ->. apply in_or_app. left. eapply lit_next_in; eauto.
+Qed.
+
+Lemma unfl_loop_no_mutation : forall l pre x,
+  unfl_loop (S (length l)) (length pre) [] (Some x) {| li_idx := S (length pre); li_done := false |} (pre ++ x :: l)
+  = Ok (x :: l).
+Proof.
+  induction l as [|y l IH]; intros pre x.
+  - assert (E : lit_next {| li_idx := S (length pre); li_done := false |} (pre ++ [x])
+                = (None, {| li_idx := S (length pre); li_done := true |})).
+    { unfold lit_next. cbn [li_done li_idx].
+      replace (nth_error (pre ++ [x]) (S (length pre))) with (@None Z); [reflexivity|].
+      symmetry. apply nth_error_None. rewrite app_length. simpl. lia. }
+    cbn [length unfl_loop]. rewrite E. reflexivity.
+  - assert (E : lit_next {| li_idx := S (length pre); li_done := false |} (pre ++ x :: y :: l)
+                = (Some y, {| li_idx := S (S (length pre)); li_done := false |})).
+    { unfold lit_next. cbn [li_done li_idx].
+      replace (nth_error (pre ++ x :: y :: l) (S (length pre))) with (Some y); [reflexivity|].
+      symmetry. rewrite nth_error_app2 by lia. replace (S (length pre) - length pre)%nat with 1%nat by lia. reflexivity. }
+    change (unfl_loop (S (length (y :: l))) (length pre) [] (Some x) {| li_idx := S (length pre); li_done := false |} (pre ++ x :: y :: l))
+      with (let '(nx, s') := lit_next {| li_idx := S (length pre); li_done := false |} (pre ++ x :: y :: l) in
+            do rest <- unfl_loop (S (length l)) (S (length pre)) [] nx s' (mut_list (nth (length pre) [] MNone) (pre ++ x :: y :: l)) ;;
+            Ok (x :: rest)).
+    rewrite E, nth_nil_mut. cbn [mut_list].
+    specialize (IH (pre ++ [x]) y).
+    replace (length (pre ++ [x])) with (S (length pre)) in IH by (rewrite app_length; simpl; lia).
+    replace ((pre ++ [x]) ++ y :: l) with (pre ++ x :: y :: l) in IH by (rewrite <- app_assoc; reflexivity).
+    rewrite IH. reflexivity.
+Qed.
+
+Theorem unflatten_no_mutation l : unflatten_leaves_mut true [] (length l) l = Ok l.
+Proof.
+  unfold unflatten_leaves_mut, lit_next. cbn [li_done li_idx]. destruct l as [|x l]; [reflexivity|].
+  cbn [nth_error]. exact (unfl_loop_no_mutation l [] x).
+Qed.
+
+(* the captured-array variant reads out of bounds as soon as a callback shrinks the list *)
+Theorem unflatten_raw_refuted :
+  exists script n l, unflatten_leaves_mut false script n l = Err Crash.
+Proof. exists [MClear], 3%nat, [1; 2; 3]%Z. reflexivity. Qed.
